@@ -45,6 +45,7 @@ inductive Instr where
   | clearMark (loop : Nat)
   | brk (loop : Nat) (scopesToPop : Nat)
   | cont (loop : Nat) (scopesToPop : Nat)
+  | assign                               -- AssignInstr
 deriving Repr, Inhabited
 
 /-- `SexpFunction` (compiled) — templates, per-closure copies and nested-evaluation helpers. -/
@@ -260,6 +261,10 @@ def compile (isFn : Nat → Bool) (c : Ctx) : Expr → G (List Instr × Bool)
     let (b, _) ← compileBegin isFn cb body
     finishTemplate t b
     pure ([.createClosure t, .popStackPutEnv name, .push .nil], c.tail)
+  | .assign l r => do
+    let (a, _) ← compile isFn c l
+    let (b, _) ← compile isFn { c with tail := false } r
+    pure (a ++ b ++ [.assign], false)
   | .bad _ => throw ()
 
 /-- `GenerateAll` (array literals): `gen.Tail` threads through. -/
